@@ -487,9 +487,16 @@ def compare(hist, res, fr):
             return {"what": "noload", "probe": NOLOAD_PROBES[i], "after_history": a, "fresh": b,
                     "note": "[text, warnings, getLanguage()] of an expression built without an explicit load after the history; the fresh interpreter ran the same explicit loads only"}
     for k in res["hashes"]:
-        if res["hashes"][k] != fr["hashes"][k]:
+        if k != "otherState" and res["hashes"][k] != fr["hashes"][k]:
             return {"what": "resource", "resource": k, "state_changed": res.get("state_changed")}
     return None
+
+
+def other_state_differs(res, fr):
+    """module globals / class attributes / closure cells other than the lexicons and rule tables differ from the fresh
+    interpreter's: NOT a violation by itself (the property speaks of the text and of the lexicons and rules), but the
+    assumption under which history independence was proved (A_reads: nothing else is written) no longer holds"""
+    return res["hashes"].get("otherState") != fr["hashes"].get("otherState")
 
 
 def differs(hist, fresh_of):
@@ -580,6 +587,9 @@ def run(ctx, deep=False):
         # the direct oracle: same probes as the fresh interpreter, same resources
         bad = compare(h, res, fr)
         hh = h
+        if bad is None and other_state_differs(res, fr):
+            ctx.diff(line, {"other_global_state": "as in the fresh interpreter"},
+                     {"other_global_state": "changed", "which": res.get("state_changed")})
         if bad is None and mlangs != res["langs"]:
             # the language changed where no explicit load stands: the prefix up to that op is a history after which an
             # expression built without load differs from the fresh interpreter's
